@@ -28,13 +28,15 @@ def pruningPitch : Rat := 3/20
 def erosionUsesDifference : Bool := true
 
 /-- pruning.py pruneContainment: the `while eroded_container is None` loop -/
-def erodeLoop : RetryCfg := { passesCurrentPitch := true, stopsAtMaxPitch := true }
+def erodeLoop : RetryCfg :=
+  { passesCurrentPitch := true, calleeTotalAtMax := false, breaksAtMax := true }
 
 /-- pruning.py pruneVisibility.bufferHelper: `buffer_quantity = obj.radius + maxDistance` -/
 def visibilityBufferIsSum : Bool := true
 
 /-- pruning.py bufferHelper loop (the callee has a BoxRegion fast path at pitch >= 1) -/
-def bufferLoop : RetryCfg := { passesCurrentPitch := true, stopsAtMaxPitch := true }
+def bufferLoop : RetryCfg :=
+  { passesCurrentPitch := true, calleeTotalAtMax := true, breaksAtMax := false }
 
 /-- regions.py _erodeOverapproximate: `math.floor(maxErosion / math.hypot(*([p] * n))) - k` -/
 def erodeCount : ErodeCountCfg := { hypotDims := 3, minus := 1, usesTargetPitch := true }
@@ -44,5 +46,8 @@ def erodeNegates : Bool := true
 
 /-- regions.py _bufferOverapproximate: `math.ceil(minBuffer / p) + k` -/
 def dilateCount : DilateCountCfg := { plus := 1, usesTargetPitch := true }
+
+/-- regions.py VoxelRegion.dilation pads the dense grid by the number of passes before dilating -/
+def dilationPads : Bool := true
 
 end Scenic.Gen
